@@ -27,6 +27,7 @@ LEVEL_TEXT = (
     "third-party libraries are not decided."
     " Also (R4b) an attribute that keeps an object which captured the sampler's generator (a frozen scipy distribution, a bound method of the generator) is rebuilt in code reachable from _set_random_state, so that a reseed is not bypassed by a cached object."
     ' The checkpoint writer only reads the history it is lent (alias analysis of C02-R7 restricted to the save path): a run with a saving folder equals a run without.'
+    " The module-state rule of C05 (R2) is included: a second run in the same process is the same run only if nothing in the stateful modules survives the first (a memo keyed injectively by value, whose entries nobody writes into, is not observable and exempt)."
 )
 TECHNIQUE = "who-may-call tables, seed-provenance dataflow, must-pass-through CFG queries, control/data non-interference (taint) analysis"
 
